@@ -147,3 +147,8 @@ class Inconclusive(Exception):
 class Deadlock(Exception):
     """a thread calls into a map while it holds one of that map's guards (DashMap would self-deadlock)"""
     pass
+
+
+class DepthStop(Exception):
+    """exploration frontier reached (used to split an exploration over processes)"""
+    pass
